@@ -363,6 +363,7 @@ struct ActiveCase {
   std::vector<AnswerDef> earlierAnswers;     // registered first under keys that `answers` registers again (the later registration counts)
   std::string desc;
   bool respBurst = false; // the addressed participant's acknowledge + response arrive in one piece
+  std::vector<size_t> chunks;   // how many of the available transport bytes each read hands over (empty: all)
   int echoGlue = 0;       // percent of the reactions to a command that arrive in one read together with the echo of the host's CRC
   int synGlue = 0;        // percent of the SYNs that reach the host in one read together with the start of a following foreign telegram
   int burst = 1;          // foreign traffic reaches the host in arrival bursts of up to that many bytes
@@ -413,6 +414,7 @@ static bool runActive(Rng& r, const ActiveCase& c, const std::string& tag, const
   w.bus.respBurst = c.respBurst;
   w.bus.burst = c.burst;
   w.bus.gluePct = c.synGlue;
+  w.chunks = c.chunks;
   w.bus.echoGluePct = c.echoGlue;
   for (auto& p : c.peers) w.bus.peers.push_back(p);
   Item s; s.kind = Item::SYN;
@@ -460,6 +462,7 @@ static bool runActive(Rng& r, const ActiveCase& c, const std::string& tag, const
   st.n["echo_glued_with_reaction"] += w.bus.echoGlued;
   for (auto& sb : subs) w.handler->takeFinished(sb.req);
   MonConfig mc{c.cfg.own, c.cfg.readOnly, c.cfg.generateSyn, c.cfg.enhanced, c.cfg.answer, c.answers};
+  if (c.burst > 1 || c.synGlue > 0 || c.respBurst) mc.deliveryLag = 4 * SYM;      // grouped delivery: up to 3 symbol times late
   std::vector<ReqInfo> reqs;
   for (size_t i = 0; i < subs.size(); i++) {
     ReqInfo ri;
@@ -552,6 +555,10 @@ static void modeActive(long ncases, const std::string& which) {
     bool hostileTraffic = which == "c03";
     c.synGlue = r.chance(1, 3) ? r.pick(std::vector<int>{20, 50, 100}) : 0;
     c.echoGlue = r.chance(1, 3) ? r.pick(std::vector<int>{30, 100}) : 0;
+    // several transport bytes at once (groups, glue) may be cut anywhere by the read size, also inside a two byte adapter sequence
+    // (not together with symbols of others grouped behind a SYN: a short read that hands over the SYN alone makes the host arbitrate
+    // "directly after the SYN" as far as it can know while the wire already carries the next telegram - nothing the host could avoid)
+    if (c.synGlue == 0 && c.burst == 1 && r.chance(1, 2)) c.chunks = r.pick(std::vector<std::vector<size_t>>{{1}, {2, 1, 3}, {3}, {1, 1, 5, 2}, {2}});
     int nreq = r.range(1, 3);
     int64_t at = (int64_t)r.range(150, 400) * MS;
     for (int k = 0; k < nreq; k++) {
@@ -606,7 +613,7 @@ static void modeActive(long ncases, const std::string& which) {
       // spread over the time in which the requests are submitted
       if (!c.requests.empty() && r.chance(1, 2)) { Item gp; gp.kind = Item::GAP; gp.gap = c.requests[0].first > 200 * MS ? c.requests[0].first - 150 * MS : 50 * MS; c.items.insert(c.items.begin(), gp); }
     }
-    c.desc = which + " glue=" + std::to_string(c.synGlue) + " burst=" + std::to_string(c.burst) + " respburst=" + std::to_string(c.respBurst) + " bussyn=" + std::to_string(c.busSynMode) + " nreq=" + std::to_string(nreq) + " foreign=" + std::to_string(c.items.size()) + " echoCorruptAt=" + std::to_string(c.echoCorruptAt);
+    c.desc = which + " chunks=" + std::to_string(c.chunks.size()) + " glue=" + std::to_string(c.synGlue) + " burst=" + std::to_string(c.burst) + " respburst=" + std::to_string(c.respBurst) + " bussyn=" + std::to_string(c.busSynMode) + " nreq=" + std::to_string(nreq) + " foreign=" + std::to_string(c.items.size()) + " echoCorruptAt=" + std::to_string(c.echoCorruptAt);
     current(which + " case " + std::to_string(ci));
     st.n["evaluations"]++;
     ActiveResult res;
